@@ -499,6 +499,7 @@ class Keyvalues:
                         # keyvalue with this name, replace it instead.
                         if (
                             can_flag_replace and
+                            cur_block_contents and
                             cur_block_contents[-1]._real_name == token_value and
                             cur_block_contents[-1].has_children()
                         ):
@@ -534,6 +535,7 @@ class Keyvalues:
                             # keyvalue with this name, replace it instead.
                             if (
                                 can_flag_replace and
+                                cur_block_contents and
                                 cur_block_contents[-1]._real_name == token_value and
                                 isinstance(cur_block_contents[-1].value, str)
                             ):
@@ -595,6 +597,8 @@ class Keyvalues:
                 if single_block and cur_block is root:
                     # Single-block mode - we just exited out of the main block.
                     # Return our child.
+                    if not root._value:
+                        raise tokenizer.error('The block was disabled by its [flag], there is nothing to return.')
                     return root[0]
                 # We know this isn't a leaf KV, we made it earlier.
                 assert not isinstance(cur_block._value, str)
